@@ -223,6 +223,20 @@ chk("C19",
     "machine-checked proof in Coq/MathComp (matrix algebra over real fields) + structure extraction/exact-rational step correspondence + metamorphic tests",
     "DESIGN.md section 6, C19")
 
+chk("C10",
+    "Coq theorems over R: under logL -> logL + c (and logZ_t -> logZ_t + beta_t c) normalised weights and ESS coincide "
+    "at every beta and the evidence estimate shifts by beta c; the reweighting routines give equal decisions for "
+    "pointwise equal oracles (no extensionality axiom, any arithmetic instance); the Metropolis exponent extracted "
+    "from the source reads logL only through l' - l; simulation theorem: for every schedule rule reading normalised "
+    "weights only and every shift-equivariant mutation, the shifted run is the shift of the run for any number of "
+    "iterations (same temperatures, recorded evidences + beta_t c, final evidence + c). Tie: Gen.MIS, Gen.Schedule, "
+    "Gen.Shift + Links; paired real runs under one seed with shifts up to +-1e3 over kernel x resampler x clustering x "
+    "metric mode (some with a zero-likelihood region).",
+    "Trusted: Coq kernel; Reals axioms/classic/funext (named in evidence); python extractor/harness; rounding idealised "
+    "(paired-run tolerance 1e-9; near-threshold schedule flips are not compared).",
+    "machine-checked proof in Coq (simulation relation by induction over iterations; real analysis) + expression extraction/paired-run correspondence",
+    "DESIGN.md section 6, C10")
+
 for pid in [f"C{i:02d}" for i in range(1, 21)]:
     if pid not in CHECKS:
         NA[pid] = "check not built yet in this session (planned in DESIGN.md section 6); not claimed"
